@@ -36,11 +36,19 @@ struct Shared {
     fail: Vec<AtomicBool>,
     poison: AtomicBool,
     poisoned: AtomicUsize,
+    /// service instances destroyed (a dying worker takes its services with it)
+    dropped: AtomicUsize,
 }
 
 struct TagSvc {
     c: usize,
     sh: Arc<Shared>,
+}
+
+impl Drop for TagSvc {
+    fn drop(&mut self) {
+        self.sh.dropped.fetch_add(1, Ordering::SeqCst);
+    }
 }
 
 impl<S: AsyncRead + AsyncWrite + Unpin + 'static> Service<S> for TagSvc {
@@ -139,6 +147,7 @@ pub fn run_scenario(sc: &Value, dir: &str, idx: usize) -> Vec<Value> {
         fail: (0..MAXC).map(|_| AtomicBool::new(false)).collect(),
         poison: AtomicBool::new(false),
         poisoned: AtomicUsize::new(0),
+        dropped: AtomicUsize::new(0),
     });
     let mut out = vec![json!({"ev": "reset", "scenario": sc})];
     let ncalls = calls.len();
@@ -289,13 +298,20 @@ pub fn run_scenario(sc: &Value, dir: &str, idx: usize) -> Vec<Value> {
                 "die" => {
                     let p = e["s"].as_u64().unwrap_or(1) as usize;
                     let before: usize = made_now(&sh).iter().sum();
+                    let dropped0 = sh.dropped.load(Ordering::SeqCst);
                     sh.poison.store(true, Ordering::SeqCst);
                     let _ = client(&addrs[p - 1], 300);
                     wait_until(Duration::from_secs(3), || sh.poisoned.load(Ordering::SeqCst) > 0);
-                    // the worker thread unwinds and closes its connection queue; nobody has noticed yet
-                    thread::sleep(Duration::from_millis(150));
-                    pending_die = Some(before + nsock);
-                    out.push(json!({"ev": "die"}));
+                    // the worker thread unwinds, destroys its services (one per socket) and closes its connection queue;
+                    // nobody has noticed yet.  If the services survive the panic the worker did not die: no event
+                    let died = wait_until(Duration::from_millis(400), || sh.dropped.load(Ordering::SeqCst) >= dropped0 + nsock);
+                    thread::sleep(Duration::from_millis(100));
+                    if died {
+                        pending_die = Some(before + nsock);
+                        out.push(json!({"ev": "die"}));
+                    } else {
+                        out.push(json!({"ev": "survived"}));
+                    }
                     out.push(json!({"ev": "made", "made": made_now(&sh)}));
                 }
                 other => panic!("driver: unknown builder event {other}"),
